@@ -9,7 +9,7 @@ THEOREMS = {
         "Dawgs.C02.Props.count_fast_path_preserves", "Dawgs.C02.Props.count_fast_path_hyp_none", "Dawgs.C02.Props.count_fast_path_hyp_kinds",
         "Dawgs.C02.Props.aggregate_helper_tie", "Dawgs.C02.Props.depth_guard_tie", "Dawgs.C02.Props.agg_count_depth_preserves",
         "Dawgs.C02.Props.agg_count_depth_needs_guard", "Dawgs.C02.Props.alias_declaration_tie", "Dawgs.C02.Props.collect_id_lowering_blocked_by_reprojection",
-        "Dawgs.C02.Props.collect_id_by_symbol_differs", "Dawgs.C02.Props.countWhere_ok", "Dawgs.C02.Props.trOpt_cases", "Dawgs.C02.Props.opt_equiv",
+        "Dawgs.C02.Props.collect_id_by_symbol_differs", "Dawgs.C02.Props.countWhere_ok", "Dawgs.C02.Props.trVariant_cases", "Dawgs.C02.Props.opt_equiv", "Dawgs.C02.Props.opt_equiv_default",
     ],
 }
 
@@ -184,8 +184,8 @@ SPEC = {
     "panic_is_violation": False,
     "rule": "cases = one hand-written query per rewrite rule / lowering + FOCUSED FAMILIES (harness/focused.go: variable-length step + fixed hops with every subset of the suffix nodes "
             "already bound; aggregate-only RETURN incl. collect / size(collect()) with LIMIT and no ORDER BY; the aggregate-traversal-count shape with every range form incl. *0..; "
-            "collect(node) AS xs used under IN with every way of reading xs afterwards; bindings read by later clauses) + FRAGMENT queries (the generators of C01's tie: stage S1, stage S2a, and `MATCH (n[:K...]) RETURN count(n)`; for these the driver also "
-            "compares both REAL statements with the model pair trOpt / trUnopt of opt_equiv — outcome frag-tie, a difference is a VIOLATION even when the evaluations agree) + every Cypher text of the repository corpora the translator accepts + structured random queries "
+            "collect(node) AS xs used under IN with every way of reading xs afterwards; bindings read by later clauses) + FRAGMENT queries (the generators of C01's tie: stage S1, stage S2b (one hop with WHERE), and `MATCH (n[:K...]) RETURN count(n)`; for these the driver also "
+            "compares both REAL statements with the model variants trVariant of opt_equiv (either join order of a hop) — outcome frag-tie, a difference is a VIOLATION even when the evaluations agree) + every Cypher text of the repository corpora the translator accepts + structured random queries "
             "(levels 1-5, splitmix64(VERIF_SEED)); each is translated twice by the REAL translator: `Translate` (optimised) and the verif-tagged hook `TranslateUnoptimized` "
             "(hooks/C02.patch: no rewrite rule, no lowering plan, no fast path), plus rules-only / lowerings-only variants to attribute a difference. Both statements are evaluated by "
             "Sql.eval on encode(g) for the fixed graph family, seeded random graphs and (fixed queries) all graphs up to 2 nodes / 2 edges, and compared as ordered lists under ORDER BY "
@@ -205,7 +205,8 @@ SPEC = {
                      "harness/sexp.go reflection rendering and the Lean readers (unknown node -> unmodelled)"],
     "assumptions": ["the rewrite / lowering theorems are about abstract relational models of the transformations (bag joins, row pipelines, chain patterns over a graph) and, for the count "
                     "fast path, about the real statement shapes under Sql.eval; that the Go code implements these transformations is checked by the search, not proved",
-                    "opt_equiv is about the model pair (trOpt, trUnopt); it transfers to the real translator only through the per-run tie frag-tie on generated fragment queries",
+                    "C02_full's graph hypothesis is GraphOK2 (C01: unique node and relationship ids, injective kind map, known relationship kinds, no stored JSON null)",
+                    "opt_equiv is about the model variants trVariant; it transfers to the real translator only through the per-run tie frag-tie on generated fragment queries",
                     "bounded evaluation on small graphs is search"],
 }
 
@@ -223,11 +224,14 @@ MANIFEST = {
             "they are. count_fast_path_preserves — under Sql.eval on every encoded graph, `select count(*) from node [where kind_ids @> …]` returns the same single row as the unoptimised two-frame "
             "statement (tied to the real statement pair by count_fast_path_tie on the S-expressions of the corpus case). reversal_preserves — a chain pattern matches a walk iff the reversed pattern "
             "(elements reversed, directions flipped) matches the reversed walk, relationship uniqueness included. reorder_preserves — bag join of independent pattern parts is commutative up to "
-            "permutation. attach_preserves — a conjunct that reads one side of a join may be evaluated before the join. opt_equiv : C02_full trOpt trUnopt — the full statement's body for the MODEL "
-            "translator pair on the proved fragment: for every graph with GraphOK and every query of C01's stages S1 and S2a and of the count fragment MATCH (n[:K...]) RETURN count(n), "
-            "whenever both statements evaluate under Sql.eval they return the same table. On S1 and S2a the two model statements are IDENTICAL (trOpt_cases: no rule or lowering changes the "
-            "statement there — this half of opt_equiv is reflexivity, its content is the run-time tie frag-tie: real optimised = real unoptimised = tr2 q); the only optimisation that changes a "
-            "statement of the fragment is the count-store fast path, for which opt_equiv rests on count_fast_path_preserves. NOT PROVED: C02_full for the real translator (all "
+            "permutation. attach_preserves — a conjunct that reads one side of a join may be evaluated before the join. opt_equiv : forall fo fu, C02_full (trVariant fo true) (trVariant fu false) — the full statement's body for every pair of variants of the MODEL "
+            "translator on the proved fragment (trVariant flipOf fastPath = C01's tr2F flipOf on stages S1 and S2b, and the count fragment MATCH (n[:K...]) RETURN count(n) with the "
+            "count-store fast path on / off): for every graph with GraphOK2, whenever both statements evaluate under Sql.eval they return the same bag of rows. Content: (1) a hop "
+            "query may be emitted in either join order by either variant — the lowering TraversalDirectionSelection of the optimised translator vs. the selectivity balance of the "
+            "unoptimised one; the REAL two statements do differ in that order on generated S2b queries — and both orders are permutations of the Cypher result (C01 s2_sound), hence of each "
+            "other; (2) the count-store fast path (count_fast_path_preserves); (3) on S1 the two statements are identical (trVariant_cases). The direction choice itself is not modelled "
+            "(see C01): it is a parameter, the theorem holds for all choices, and the per-run tie frag-tie checks real optimised / unoptimised statement = model statement for one of the two "
+            "orders each. NOT PROVED: C02_full for the real translator (all "
             "queries); the other lowerings (late path materialisation, suffix / predicate placement, direction selection, expand-into, exact range, shortest-path strategies, aggregate traversal "
             "count) are covered by the search only. SEARCHED: every corpus / generated query both variants translate and Sql.eval models; the evidence lists which rules and lowerings fired.",
     "note": "Search compares two outputs of the real translator with each other, so it needs no Cypher semantics and is not affected by the C01 deviations (both variants share them). "
